@@ -252,15 +252,18 @@ def ITier.intersection (t u : ITier α) : Except Err (ITier α) := do
     pure (sub.es.map fun si => (⟨si.s, si.e, si.l ++ "-" ++ iv.l⟩ : Iv α))
   t.new (name := some (t.name ++ "-" ++ u.name)) (es := some parts.flatten)
 
+/-- one iteration of the loop of `IntervalTier.mergeLabels` -/
+def mergeLabelsOne (u : ITier α) (iv : Iv α) : Except Err (List (Iv α)) := do
+  let sub ← u.crop iv.s iv.e .truncated false
+  match sub.es.head?, sub.es.getLast? with
+  | some f, some g =>
+    let lab := iv.l ++ "(" ++ pyJoin "," (sub.es.map (·.l)) ++ ")"
+    pure [(⟨pyMin2 iv.s f.s, pyMax2 iv.e g.e, lab⟩ : Iv α)]
+  | _, _ => pure []
+
 /-- `IntervalTier.mergeLabels` -/
 def ITier.mergeLabels (t u : ITier α) : Except Err (ITier α) := do
-  let parts ← t.es.mapM fun iv => do
-    let sub ← u.crop iv.s iv.e .truncated false
-    match sub.es.head?, sub.es.getLast? with
-    | some f, some g =>
-      let lab := iv.l ++ "(" ++ pyJoin "," (sub.es.map (·.l)) ++ ")"
-      pure [(⟨pyMin2 iv.s f.s, pyMax2 iv.e g.e, lab⟩ : Iv α)]
-    | _, _ => pure []
+  let parts ← t.es.mapM (mergeLabelsOne u)
   t.new (name := some (t.name ++ "-" ++ u.name)) (es := some parts.flatten)
 
 /-! ## dejitter, morph -/
